@@ -5,6 +5,7 @@ CONSTANTS
   Preface = 0
   Peek = 0
   MaxTimeouts = 0
+  Priors = {0}
   Defects = {}
 SPECIFICATION Spec
 INVARIANTS InOrderOnce NoEarly Prompt Consumed PrefaceOnce NoError NoByteLost SameForEveryCut EmitCase
